@@ -518,7 +518,10 @@ bool ts_node_has_changes(TSNode self) {
 }
 
 bool ts_node_has_error(TSNode self) {
-  return ts_subtree_error_cost(ts_node__subtree(self)) > 0;
+  Subtree subtree = ts_node__subtree(self);
+  // A childless ERROR node (skipped characters) carries no error cost of its
+  // own, but it is still a syntax error.
+  return ts_subtree_error_cost(subtree) > 0 || ts_subtree_is_error(subtree);
 }
 
 bool ts_node_is_error(TSNode self) {
